@@ -1,0 +1,236 @@
+//go:build verif
+
+package goose
+
+// Contracts for the gvc verifier (/verif). Comment-only: this file adds no
+// code. Syntax: /verif/DESIGN.md §2.2.
+//
+// The translator works on immutable go/ast and go/types structures: their
+// fields are read-only during a run, and pure library calls on them are
+// uninterpreted functions of their arguments. Structured rejections
+// (panic(gooseError{...}), recovered per declaration) are allowed exits
+// (`may_reject`); every other panic must be unreachable.
+
+// ---- trusted facts about the standard library and type-checked input (listed in the evidence) ----
+
+//@ assume func go/printer.Fprint (output, fset, node)
+//@   modifies everything
+//@   ensures result == nil
+//@ assume func strings.Split (s, sep)
+//@   ensures len(result) >= 1 && fresh(result)
+//@ assume func strings.LastIndex (s, substr)
+//@   ensures -1 <= result && result < len(s)
+//@ assume func strconv.Unquote (s)
+//@   ensures result.1 == nil
+
+//@ axiom [ast] assign_nonempty: forall s *ast.AssignStmt :: len(s.Lhs) >= 1 && len(s.Rhs) >= 1
+//@ axiom [ast] valuespec_named: forall v *ast.ValueSpec :: len(v.Names) >= 1
+//@ axiom [ast] gendecl_value_specs: forall d *ast.GenDecl, i int :: 0 <= i && i < len(d.Specs) && (d.Tok == token.VAR || d.Tok == token.CONST) ==> typeis(d.Specs[i], *ast.ValueSpec)
+//@ axiom [ast] gendecl_import_specs: forall d *ast.GenDecl, i int :: 0 <= i && i < len(d.Specs) && d.Tok == token.IMPORT ==> typeis(d.Specs[i], *ast.ImportSpec)
+//@ axiom [ast] gendecl_type_specs: forall d *ast.GenDecl, i int :: 0 <= i && i < len(d.Specs) && d.Tok == token.TYPE ==> typeis(d.Specs[i], *ast.TypeSpec)
+//@ axiom [ast] if_else_kinds: forall s *ast.IfStmt :: s.Else == nil || typeis(s.Else, *ast.BlockStmt) || typeis(s.Else, *ast.IfStmt)
+//@ axiom [ast] maptype_is_map: forall info *types.Info, e *ast.MapType :: typeis(pure(types.Type, "(go/types.Type).Underlying", pure(types.Type, "(*go/types.Info).TypeOf", info, ast.Expr(e))), *types.Map)
+//@ axiom [ast] arraytype_is_array: forall info *types.Info, e *ast.ArrayType :: e.Len != nil ==> typeis(pure(types.Type, "(*go/types.Info).TypeOf", info, ast.Expr(e)), *types.Array)
+//@ axiom [ast] import_path_is_string: forall s *ast.ImportSpec :: s.Path.Kind == token.STRING
+
+//@ default_use ast
+
+// ---- reporters never return and only raise structured rejections ---------------------------------
+
+//@ props C02 C07
+
+//@ func (errorReporter).prefixed
+//@   noreturn
+//@   structured
+//@ func (errorReporter).nope
+//@   noreturn
+//@   structured
+//@ func (errorReporter).noExample
+//@   noreturn
+//@   structured
+//@ func (errorReporter).futureWork
+//@   noreturn
+//@   structured
+//@ func (errorReporter).todo
+//@   noreturn
+//@   structured
+//@ func (errorReporter).unsupported
+//@   noreturn
+//@   structured
+
+// ---- helpers with preconditions that callers must establish (C07) ------------------------------
+
+//@ props C07
+
+//@ func sliceElem
+//@   requires [argument is a slice type] typeis(t, *types.Slice)
+//@   may_reject
+//@   noframe
+//@ func ptrElem
+//@   requires [argument is a pointer type] typeis(t, *types.Pointer)
+//@   may_reject
+//@   noframe
+//@ func stringLitValue
+//@   requires [literal is a string] lit.Kind == token.STRING
+//@   may_reject
+//@   noframe
+//@ func (*cursor).Next
+//@   requires [cursor is not empty] len(c.Stmts) > 0
+//@   may_reject
+//@   ensures result == old(c.Stmts[0]) && c.Stmts == old(c.Stmts[1:])
+//@   modifies c.Stmts
+//@ func (Ctx).setPtrWrapped
+//@   trusted_requires [Ctx is built by NewPkgCtx/NewCtx, which allocate the map] ctx.idents.isPtrWrapped != nil
+//@   may_reject
+//@ func sortedFiles
+//@   trusted_requires [x/tools: Syntax parallels CompiledGoFiles] len(fileNames) == len(fileAsts)
+//@   may_reject
+//@ func sortedFiles$1
+//@   trusted_requires [sort.Slice passes valid indices] 0 <= i && i < len(*flatFiles) && 0 <= j && j < len(*flatFiles)
+//@   may_reject
+//@ func getFfi$2
+//@   requires [map allocated by getFfi] *seenFfis != nil
+//@   may_reject
+//@ func (Ctx).constDecl
+//@   requires [called for const declarations] d.Tok == token.CONST
+//@   may_reject
+//@ func (Ctx).globalVarDecl
+//@   requires [called for var declarations] d.Tok == token.VAR
+//@   may_reject
+//@ func (Ctx).imports
+//@   requires [called with the specs of an import declaration] forall i int :: 0 <= i && i < len(d) ==> typeis(d[i], *ast.ImportSpec)
+//@   may_reject
+
+// ---- syntactic guards: returning normally implies the construct has a supported shape (C02) -----
+
+//@ props C02 C07
+
+//@ func (Ctx).stmts
+//@   requires [usage is one of the three modes] usage == ExprValLocal || usage == ExprValReturned || usage == ExprValLoop
+//@   may_reject
+//@ func (Ctx).blockStmt
+//@   requires [usage is one of the three modes] usage == ExprValLocal || usage == ExprValReturned || usage == ExprValLoop
+//@   may_reject
+//@ func (Ctx).stmt
+//@   may_reject
+//@ func (Ctx).stmtInBlock
+//@   requires [usage is one of the three modes] usage == ExprValLocal || usage == ExprValReturned || usage == ExprValLoop
+//@   may_reject
+//@   ensures [local usage is always finalized] usage == ExprValLocal ==> result.1
+//@   ensures [return only where a return is available] typeis(s, *ast.ReturnStmt) ==> usage == ExprValReturned
+//@   ensures [break/continue only directly in a loop body] typeis(s, *ast.BranchStmt) ==> usage == ExprValLoop
+//@   ensures [only supported statement kinds] typeis(s, *ast.ReturnStmt) || typeis(s, *ast.BranchStmt) || typeis(s, *ast.IfStmt) || typeis(s, *ast.BlockStmt) || typeis(s, *ast.GoStmt) || typeis(s, *ast.ExprStmt) || typeis(s, *ast.AssignStmt) || typeis(s, *ast.DeclStmt) || typeis(s, *ast.IncDecStmt) || typeis(s, *ast.ForStmt) || typeis(s, *ast.RangeStmt)
+//@ func (Ctx).ifStmt
+//@   requires [usage is one of the three modes] usage == ExprValLocal || usage == ExprValReturned || usage == ExprValLoop
+//@   may_reject
+//@   ensures [no if-statement initializer] s.Init == nil
+//@ func (Ctx).assignStmt
+//@   may_reject
+//@   ensures [only supported assignment operators] s.Tok == token.DEFINE || s.Tok == token.ASSIGN || s.Tok == token.ADD_ASSIGN || s.Tok == token.SUB_ASSIGN || s.Tok == token.OR_ASSIGN || s.Tok == token.AND_ASSIGN || s.Tok == token.XOR_ASSIGN
+//@   ensures [operator assignment has a single target] s.Tok != token.DEFINE && s.Tok != token.ASSIGN ==> len(s.Lhs) == 1
+//@ func (Ctx).multipleAssignStmt
+//@   may_reject
+//@   ensures [one call on the right, plain assignment] len(s.Rhs) == 1 && s.Tok == token.ASSIGN
+//@ func (Ctx).defineStmt
+//@   may_reject
+//@   ensures [single right-hand side] len(s.Rhs) == 1
+//@   ensures [every target is an identifier] forall i int :: 0 <= i && i < len(s.Lhs) ==> typeis(s.Lhs[i], *ast.Ident)
+//@   ensures [at most four results can be destructured] len(s.Lhs) <= 4
+//@   loop 1 invariant [targets so far are identifiers] forall i int :: 0 <= i && i <= rangeindex ==> typeis(s.Lhs[i], *ast.Ident)
+//@ func (Ctx).sliceExpr
+//@   may_reject
+//@   ensures [no 3-index slices, no complete slice] !e.Slice3 && e.Max == nil && !(e.Low == nil && e.High == nil)
+//@ func (Ctx).branchStmt
+//@   may_reject
+//@   ensures [only break and continue] s.Tok == token.BREAK || s.Tok == token.CONTINUE
+//@ func (Ctx).goStmt
+//@   may_reject
+//@   ensures [go only of an argument-less function literal] len(e.Call.Args) == 0 && typeis(e.Call.Fun, *ast.FuncLit)
+//@ func (Ctx).spawnExpr
+//@   may_reject
+//@   ensures [only function literals are spawned] typeis(thread, *ast.FuncLit)
+//@ func (Ctx).loopVar
+//@   may_reject
+//@   ensures [loop initialisation is a single := of one identifier] typeis(s, *ast.AssignStmt) && s.(*ast.AssignStmt).Tok == token.DEFINE && len(s.(*ast.AssignStmt).Lhs) == 1 && len(s.(*ast.AssignStmt).Rhs) == 1 && typeis(s.(*ast.AssignStmt).Lhs[0], *ast.Ident)
+//@ func (Ctx).incDecStmt
+//@   may_reject
+//@   ensures [only variables are incremented] typeis(stmt.X, *ast.Ident)
+//@ func (Ctx).unaryExpr
+//@   may_reject
+//@   ensures [only !, ^ and & are supported] e.Op == token.NOT || e.Op == token.XOR || e.Op == token.AND
+//@ func (Ctx).binExpr
+//@   may_reject
+//@   ensures [only operators of the table] e.Op == token.ADD || e.Op == token.LSS || e.Op == token.GTR || e.Op == token.SUB || e.Op == token.EQL || e.Op == token.NEQ || e.Op == token.MUL || e.Op == token.QUO || e.Op == token.REM || e.Op == token.LEQ || e.Op == token.GEQ || e.Op == token.AND || e.Op == token.LAND || e.Op == token.OR || e.Op == token.LOR || e.Op == token.XOR || e.Op == token.SHL || e.Op == token.SHR
+//@ func (Ctx).field
+//@   may_reject
+//@   ensures [exactly one name per field] len(f.Names) == 1
+//@ func (Ctx).typeDecl
+//@   may_reject
+//@   ensures [no generic named types] spec.TypeParams == nil
+//@ func (Ctx).varSpec
+//@   may_reject
+//@   ensures [one variable per declaration] len(s.Names) == 1
+//@ func (Ctx).varDeclStmt
+//@   may_reject
+//@   ensures [a single var declaration] typeis(s.Decl, *ast.GenDecl) && s.Decl.(*ast.GenDecl).Tok == token.VAR && len(s.Decl.(*ast.GenDecl).Specs) == 1
+//@ func (Ctx).constSpec
+//@   may_reject
+//@   ensures [constants have a value] len(spec.Values) >= 1
+//@ func (Ctx).basicLiteral
+//@   may_reject
+//@   ensures [only string and integer literals] e.Kind == token.STRING || e.Kind == token.INT
+//@   ensures [string literals contain no double quote] e.Kind == token.STRING ==> !pure(bool, "strings.ContainsRune", pure(string, "go/constant.StringVal", ctx.info.Types[ast.Expr(e)].Value), int32(34))
+//@ func (Ctx).exprSpecial
+//@   may_reject
+//@   ensures [type assertions are not silently dropped] !typeis(e, *ast.TypeAssertExpr)
+//@   ensures [only supported expression kinds] typeis(e, *ast.CallExpr) || typeis(e, *ast.MapType) || typeis(e, *ast.Ident) || typeis(e, *ast.SelectorExpr) || typeis(e, *ast.CompositeLit) || typeis(e, *ast.BasicLit) || typeis(e, *ast.BinaryExpr) || typeis(e, *ast.SliceExpr) || typeis(e, *ast.IndexExpr) || typeis(e, *ast.UnaryExpr) || typeis(e, *ast.ParenExpr) || typeis(e, *ast.StarExpr) || typeis(e, *ast.TypeAssertExpr) || typeis(e, *ast.FuncLit)
+//@ func (Ctx).rangeStmt
+//@   may_reject
+//@   ensures [range variables are declared by the loop, not assigned] s.Tok == token.DEFINE || (s.Key == nil && s.Value == nil)
+//@ func (Ctx).returnType
+//@   may_reject
+//@   ensures [no named results] results == nil || forall i int :: 0 <= i && i < len(results.List) ==> len(results.List[i].Names) == 0
+//@   loop 1 invariant [results so far are unnamed] forall i int :: 0 <= i && i <= rangeindex ==> len(rs[i].Names) == 0
+//@ func (Ctx).compositeLiteral
+//@   may_reject
+//@   ensures [slice literals have at most one element] typeis(pure(types.Type, "(go/types.Type).Underlying", pure(types.Type, "(*go/types.Info).TypeOf", ctx.info, ast.Expr(e))), *types.Slice) ==> len(e.Elts) <= 1
+
+// ---- look-alikes: a builtin translation requires the universe builtin (C02) ----------------------
+
+//@ ghost func isuniverse(ctx Ctx, f ast.Expr) bool = typeis(f, *ast.Ident) && has(ctx.info.Uses, f.(*ast.Ident)) && pure(*types.Scope, "(go/types.Object).Parent", ctx.info.Uses[f.(*ast.Ident)]) == types.Universe
+
+//@ props C02 C07
+
+//@ func (Ctx).lenExpr
+//@   requires [len denotes the universe builtin, not a user-defined look-alike] isuniverse(ctx, e.Fun)
+//@   trusted_requires [type checker: a call of the universe len has exactly one argument] len(e.Args) == 1
+//@   may_reject
+//@ func (Ctx).capExpr
+//@   requires [cap denotes the universe builtin, not a user-defined look-alike] isuniverse(ctx, e.Fun)
+//@   trusted_requires [type checker: a call of the universe cap has exactly one argument] len(e.Args) == 1
+//@   may_reject
+
+// ---- per-package workers (C06, C07, C17) -----------------------------------------------------
+
+//@ props C06 C07 C17
+
+//@ func (TranslationConfig).TranslatePackages$1
+//@   requires [worker i writes only its own result slots, which exist] 0 <= i && i < len(*files) && i < len(*errs)
+//@   may_reject
+//@ func (TranslationConfig).TranslatePackages
+//@   may_reject
+//@   ensures [one file and one error slot per matched package] result.2 == nil ==> len(result.0) == len(result.1) && len(result.0) >= 1
+//@   ensures [a pattern error yields no files] result.2 != nil ==> len(result.0) == 0 && len(result.1) == 0
+//@ assume func (*sync.WaitGroup).Add (wg, delta)
+//@ assume func (*sync.WaitGroup).Done (wg)
+//@ assume func (*sync.WaitGroup).Wait (wg)
+
+// translatePackage writes only memory it allocates itself (and reads the shared,
+// immutable package graph). The frame is not an SMT obligation here: it is
+// established by the store sweep of property C06 over the static call graph.
+//@ func (TranslationConfig).translatePackage
+//@   may_reject
+//@   modifies fresh
+//@   noframe
+//@ assume func github.com/pkg/errors.New (message)
+//@   ensures result != nil
